@@ -36,6 +36,8 @@ PARENT_SRC = '''
 from typing import Iterator, Generator
 def f(x: int, y: str = "a", *args, **kw) -> bool: ...
 def t(x: int, y: str = "a") -> tuple[int, str]: ...
+def gen(x: int, y: str = "a") -> Generator[int, str, bool]: ...
+def gent(x: int, y: str = "a") -> Generator[tuple[int, str], tuple[int, str], tuple[int, str]]: ...
 class K:
     a: int = 0
     b: str
@@ -82,6 +84,10 @@ def menu():
     # un-annotated items under a parent returning a tuple: one item takes the whole annotation, several take one element each
     add("returns", "gn", items=[_item("r", None)], parent="tuple")
     add("returns", "gn", items=[_item("r", None, D2), _item("s", None)], parent="tuple")
+    # un-annotated items under generator parents: the slot of Generator[yield, receive, return] that the section documents
+    for kind in ("returns", "yields", "receives"):
+        add(kind, "gn", items=[_item("r", None)], parent="gen")
+        add(kind, "gn", items=[_item("r", None, D2), _item("s", None)], parent="gen-tuples")
     for kind in ("raises", "warns"):
         st = "gns" if kind == "raises" else "gn"
         add(kind, st, items=[_item(None, "ValueError")])
@@ -123,7 +129,8 @@ def cases(tier):
                 kinds = [MENU[i]["kind"] for i in combo]
                 if len(set(kinds)) != len(kinds):
                     continue
-                if "attributes" in kinds and any(MENU[i].get("parent") == "tuple" for i in combo):
+                parents_wanted = {MENU[i].get("parent") for i in combo} - {None}
+                if len(parents_wanted) > 1 or ("attributes" in kinds and parents_wanted):
                     continue  # one docstring has one parent
                 if style != "google" and any(k == "text" and j > 0 for j, k in enumerate(kinds)):
                     # Numpy and Sphinx syntax have no way to end a section other than starting the next one:
@@ -371,7 +378,11 @@ def expected(sections, style, opts, parent_kind):
                 ann = it["annotation"]
                 if style == "google" and not named:
                     name = ""
-                if ann is None and k == "returns" and parent_kind == "function":
+                if ann is None and parent_kind == "gen":
+                    ann = {"yields": "int", "receives": "str", "returns": "bool"}[k]
+                elif ann is None and parent_kind == "gen-tuples":
+                    ann = ("int", "str")[items.index(it)] if len(items) > 1 else "tuple[int, str]"
+                elif ann is None and k == "returns" and parent_kind == "function":
                     ann = "bool"
                 elif ann is None and k == "returns" and parent_kind == "function-tuple":
                     ann = ("int", "str")[items.index(it)] if len(items) > 1 else "tuple[int, str]"
@@ -461,8 +472,9 @@ def run_case(env, acc, case):
         sections = [{"kind": "text", "text": [["Summary line."]]}] + sections
         if sections[1]["kind"] == "text":
             sections = [{"kind": "text", "text": [["Summary line."]] + sections[1]["text"]}] + sections[2:]
-    parent_kind = "class" if any(s["kind"] == "attributes" for s in sections) else "function-tuple" if any(s.get("parent") == "tuple" for s in sections) else "function"
-    parent = env["mod"]["K"] if parent_kind == "class" else env["mod"]["t"] if parent_kind == "function-tuple" else env["mod"]["f"]
+    wanted = next((s["parent"] for s in sections if s.get("parent")), None)
+    parent_kind = "class" if any(s["kind"] == "attributes" for s in sections) else {"tuple": "function-tuple", "gen": "gen", "gen-tuples": "gen-tuples", None: "function"}[wanted]
+    parent = env["mod"][{"class": "K", "function-tuple": "t", "gen": "gen", "gen-tuples": "gent", "function": "f"}[parent_kind]]
     text = RENDER[style](sections, opts)
     if not summary:
         # as in source code: the docstring opens with a line break, so that cleandoc keeps the items' indentation
